@@ -111,6 +111,13 @@ class RawV:
     __hash__ = object.__hash__
 
 
+class OptStdV:
+    """Metric.std: Optional[float] as (present?, value) -- passing it on to Metric(std=...) keeps both (no case split)."""
+
+    def __init__(self, has, term):
+        self.has, self.term = has, term
+
+
 class GoalV:
     """an ObjectiveMetricGoal member (IntEnum): term of sort Int."""
 
@@ -626,7 +633,7 @@ def _value_getattr(it, v, a):
         if a == 'value':
             return MetricS.value(v.term)
         if a == 'std':
-            return MetricS.std(v.term) if it.truth(MetricS.has_std(v.term)) else None
+            return OptStdV(MetricS.has_std(v.term), MetricS.std(v.term))
         raise Unsupported('Metric.%s' % a)
     if isinstance(v, PValV):
         if a == 'value':
@@ -688,6 +695,17 @@ def _value_getattr_first(it, v, a):
     # VList is a SymList: models.value_getattr would use its own append (scalar element kinds only)
     if isinstance(v, VList) and a == 'append':
         return _bi('append', lambda it_, args, kw: vlist_append(it_, v, args[0]))
+    if isinstance(v, VList) and a == 'tolist':
+        def tolist(it_, args, kw):
+            r = VList(v.n, v.arr, v.kind, v.pos)
+            for at in ('source', 'sigma', 'tau'):
+                if hasattr(v, at):
+                    setattr(r, at, getattr(v, at))
+            r.python_scalars = True          # ndarray.tolist() converts numpy scalars to python scalars (same values, same order)
+            if hasattr(v, 'source'):
+                it_.run.permutations = getattr(it_.run, 'permutations', []) + [r]
+            return r
+        return _bi('tolist', tolist)
     return _prev_value_getattr(it, v, a)
 
 
@@ -857,6 +875,8 @@ def _truth(it, v):
         return v.di.n(v.term) > 0
     if isinstance(v, RawV):
         return fresh_bool(it, 'rawtruth')
+    if isinstance(v, OptStdV):
+        return z3.And(v.has, xreal.truth(v.term))
     return _prev_truth(it, v)
 
 
@@ -868,6 +888,9 @@ _prev_compare = M.compare
 
 
 def _compare(it, op, l, r):
+    if isinstance(op, (ast.Is, ast.IsNot)) and (isinstance(l, OptStdV) and r is None or isinstance(r, OptStdV) and l is None):
+        o = l if isinstance(l, OptStdV) else r
+        return z3.Not(o.has) if isinstance(op, ast.Is) else o.has
     if isinstance(op, (ast.Is, ast.IsNot, ast.In, ast.NotIn)):
         return _prev_compare(it, op, l, r)
     if isinstance(l, (RawV, PValV)) and isinstance(r, (RawV, PValV)) and isinstance(op, (ast.Eq, ast.NotEq)):
@@ -1156,6 +1179,8 @@ def _fresh_like(it, v, name):
         return TrialV(run.fresh(name, TRef))
     if isinstance(v, MetricInfoV):
         return MetricInfoV(run.fresh(name, MIRef))
+    if isinstance(v, OptStdV):
+        return OptStdV(run.fresh(name + '_has', z3.BoolSort()), run.fresh(name, xreal.XReal))
     if isinstance(v, (MetricV, PValV, RawV, GoalV, FeatV)):
         return type(v)(run.fresh(name, v.term.sort()))
     if isinstance(v, DictV):
@@ -1640,6 +1665,9 @@ def _m_metric(it, args, kw):
         v = it.run.fresh('absvalue', xreal.XReal)
     if not (xreal.is_x(v) or isinstance(v, (int, float)) or (z3.is_expr(v) and v.sort() in (z3.IntSort(), z3.RealSort()))):
         raise Unsupported('Metric(value=%r)' % (v,))
+    if isinstance(std, OptStdV):
+        # a std taken from an existing (validated) Metric: present iff it was present there, same value
+        return MetricV(MetricS.mk(xreal.lift(v), std.has, std.term))
     if std is None:
         return MetricV(MetricS.mk(xreal.lift(v), z3.BoolVal(False), xreal.lit(0.0)))
     if isinstance(std, Abs):
@@ -2636,6 +2664,11 @@ _prev_subscript7 = M.subscript
 
 
 def _subscript7(it, base, idx):
+    if it.pure and isinstance(base, SymList) and isinstance(idx, int) and not isinstance(idx, bool) and idx >= 0:
+        # inside a definitional comprehension no path can fork: the element term is used as is (the surrounding code is
+        # responsible for the index being in range; recorded as an assumption)
+        it.run.assumed.add('a constant index into a list inside a comprehension is in range')
+        return base.get(z3.IntVal(idx))
     if isinstance(base, (list, tuple)) and isinstance(idx, (RawV, PValV)):
         k = raw_index(idx.term)
         for pos in range(len(base)):
